@@ -197,9 +197,14 @@ def run(c):
     for pos in range(len(base) + 1):
         for bad in (b"\xff", b"\xc3", b"\xe2\x82"):
             lines.append(("non-utf8", base[:pos] + bad + base[pos:], False))
+    # the input may end right behind the line: no terminator, possibly in the middle of a multi-byte character
+    for m in METHODS[:3]:
+        for bad in (b"\xe2\x82", b"\xc3", b"\xf0\x9f", b"\xf0\x9f\x98", b"\xff", b"\x80"):
+            lines.append(("non-utf8-at-end-of-input", ("%s /path HTTP/1.1" % m).encode() + bad, False))
+            lines.append(("non-utf8-at-end-of-input", ("%s /pa" % m).encode() + bad, False))
     cases, meta = [], {}
     for i, (kind, ln, want) in enumerate(lines):
-        for tail in (b"\r\nHost: h\r\n\r\n", b"\r\n\r\n", b"\n\n"):
+        for tail in ((b"",) if kind == "non-utf8-at-end-of-input" else (b"\r\nHost: h\r\n\r\n", b"\r\n\r\n", b"\n\n")):
             cid = "l%d-%d" % (i, len(tail))
             cases.append(core.Case(cid, "req.parse", [ln + tail]))
             meta[cid] = (kind, ln, want)
@@ -216,7 +221,7 @@ def run(c):
                 c.seen("near miss: unknown version")
             if kind == "missing-part":
                 c.seen("near miss: missing part")
-            if kind == "non-utf8":
+            if kind.startswith("non-utf8"):
                 c.seen("near miss: non-UTF-8 byte")
             if o is None or o.outcome == "missing":
                 c.inconc("no observation " + cs.id)
